@@ -244,4 +244,146 @@ theorem ifInit_eq (ev : Text → Expr) (secs : List (Section Blk)) :
             rw [← cond_of_nameParam ev t]
             cases els <;> cases t.isExpr <;> simp [encodeI]
 
+/-! ### the errors of the compile model are the errors of the parser model's `checkBlock`
+
+`Parse.checkBlock` is what the C06 theorems and the parser correspondence validate; `ifParts` / `unlessParts` are what the
+translated constructors are proved equal to.  For a list of sections that has a first section, not called `else` (the only
+lists the parser builds), the two end in a ParseError on the same inputs, with the same text. -/
+
+/-- the ParseError a constructor ends in, if it does -/
+def errOf {α : Type} : Except PErr α → Option PErr
+  | .error e => some e
+  | .ok _ => none
+
+/-- what the parser model's `checkBlock` is given: the tag name and the argument text of every section -/
+abbrev sigOf (secs : List (Section Blk)) : List (String × Text) := secs.map fun s => (s.tname, s.args)
+
+theorem elif_loop_err (ev : Text → Expr) (f : String × Text → List ExprUse → Except PErr (ForInStep (List ExprUse)))
+    (hf : ∀ x s, f x s = if x.fst = "else" then .error ⟨"more than one else tag for a single if tag"⟩ else
+        match parseParams (tbl Gen.ifParams 2) x.snd with
+        | .error e => .error e
+        | .ok ep =>
+          match nameParam ep true with
+          | .error e => .error e
+          | .ok r => .ok (.yield (s ++ r.snd))) :
+    ∀ (l : List (Section Blk)) (es : List ExprUse), errOf (forIn (sigOf l) es f) = errOf (elifConds ev l) := by
+  intro l
+  induction l with
+  | nil => intro es; rfl
+  | cons s rest ih =>
+    intro es
+    simp only [sigOf, List.map_cons, List.forIn_cons, hf, elifConds, tagCond]
+    by_cases h : s.tname = "else"
+    · simp [h, errOf, bind, Except.bind]
+    · simp only [h, if_false, beq_iff_eq]
+      cases parseParams (tbl Gen.ifParams 2) s.args with
+      | error e => rfl
+      | ok ep =>
+        simp only
+        cases nameParam ep true with
+        | error e => rfl
+        | ok r =>
+          simp only [bind, Except.bind]
+          have := ih (es ++ r.snd)
+          simp only [sigOf] at this
+          rw [this]
+          cases elifConds ev rest <;> rfl
+
+
+/-- closes `errOf (match elifConds ev M with …) = errOf (match forIn (sigOf M) es body with …)`, `body` the loop of `checkBlock` -/
+local macro "elif_leaf" ev:term "," M:term : tactic => `(tactic| (
+  generalize hF : (forIn (List.map _ $M) _ _ : Except PErr (List ExprUse)) = X
+  have h : errOf X = errOf (elifConds $ev $M) := by
+    rw [← hF]
+    refine elif_loop_err $ev _ ?_ _ _
+    intro x s
+    by_cases hx : x.fst = "else"
+    · simp only [hx, if_true]; rfl
+    · simp only [hx, if_false]
+      cases parseParams (tbl Gen.ifParams 2) x.snd with
+      | error e => rfl
+      | ok ep =>
+        simp only
+        cases nameParam ep true <;> rfl
+  revert h
+  cases X <;> cases elifConds $ev $M <;> intro h <;> simp only [errOf] at h ⊢ <;> first | exact h.symm | cases h))
+
+theorem if_parts_err_eq (ev : Text → Expr) (s0 : Section Blk) (rest : List (Section Blk)) (h0 : s0.tname ≠ "else") :
+    errOf (ifParts ev (s0 :: rest)) = errOf (checkBlock .if_ (sigOf (s0 :: rest))) := by
+  simp only [checkBlock, ifParts, tagCond, sigOf, List.map_cons, List.headD_cons, List.drop_succ_cons, List.drop_zero]
+  cases parseParams (tbl Gen.ifParams 0) s0.args with
+  | error e => rfl
+  | ok p =>
+    simp only [bind, Except.bind]
+    cases nameParam p true with
+    | error e => rfl
+    | ok r =>
+      obtain ⟨t, es⟩ := r
+      simp only [splitElse, List.getLast?_cons, List.getLast?_map]
+      cases hl : rest.getLast? with
+      | none =>
+        have : rest = [] := List.getLast?_eq_none_iff.mp hl
+        subst this
+        simp [h0, errOf, elifConds, pure, Except.pure]
+      | some l =>
+        have hne : rest ≠ [] := by intro h; subst h; cases hl
+        simp only [Option.getD_some, Option.map_some, List.dropLast_cons_of_ne_nil hne]
+        by_cases hle : l.tname = "else"
+        · simp only [hle, beq_self_eq_true, if_true, ← List.map_dropLast]
+          cases parseParams (tbl Gen.ifParams 1) l.args with
+          | error e => rfl
+          | ok ep =>
+            simp only
+            cases ep.isEmpty with
+            | true =>
+              simp only [if_true, pure, Except.pure, List.drop_succ_cons, List.drop_zero]
+              elif_leaf ev, rest.dropLast
+            | false =>
+              simp only [Bool.false_eq_true, if_false]
+              cases nameParam ep true with
+              | error e => rfl
+              | ok r =>
+                obtain ⟨et, ees⟩ := r
+                simp only
+                cases et.name != t.name with
+                | true => rfl
+                | false =>
+                  simp only [Bool.false_eq_true, if_false, pure, Except.pure, List.drop_succ_cons, List.drop_zero]
+                  elif_leaf ev, rest.dropLast
+        · simp only [hle, beq_iff_eq, if_false]
+          simp only [List.drop_succ_cons, List.drop_zero]
+          generalize hL : errOf (_ : Except PErr (List (Src × List Blk) × Option (List Blk))) = L
+          split
+          · rename_i x err heq
+            split at heq
+            · rename_i heq2
+              simp only [Option.some.injEq, Prod.mk.injEq] at heq2
+              exact absurd heq2.1 hle
+            · cases heq
+          · rename_i x v heq
+            split at heq
+            · rename_i heq2
+              simp only [Option.some.injEq, Prod.mk.injEq] at heq2
+              exact absurd heq2.1 hle
+            · simp only [pure, Except.pure, Except.ok.injEq] at heq
+              subst heq
+              subst hL
+              simp only [pure, Except.pure]
+              elif_leaf ev, rest
+
+theorem errOf_eq_some {α : Type} (x : Except PErr α) (e : PErr) : errOf x = some e ↔ x = .error e := by
+  cases x <;> simp [errOf]
+
+/-- dtml-unless (and the stand-alone dtml-else): one `parse_params`, one `name_param` on both sides -/
+theorem unless_parts_err_eq (ev : Text → Expr) (s0 : Section Blk) (rest : List (Section Blk)) :
+    errOf (unlessParts ev (s0 :: rest)) = errOf (checkBlock .unless (sigOf (s0 :: rest))) := by
+  simp only [checkBlock, unlessParts, tagCond, sigOf, List.map_cons, List.headD_cons]
+  cases parseParams (tbl Gen.unlessParams 0) s0.args with
+  | error e => rfl
+  | ok p =>
+    simp only [bind, Except.bind]
+    cases nameParam p true with
+    | error e => rfl
+    | ok r => rfl
+
 end DTML.Lemmas.IfCompile
